@@ -11,3 +11,10 @@ MUTANTS = [
 
 NEUTRALS = [{'name': 'swap multiplication order in integrand', 'file': 'partitura/score.py', 'old': '(keypoints[:-1, 2] * np.diff(keypoints[:, 0])) / keypoints[:-1, 1]', 'new': '(np.diff(keypoints[:, 0]) * keypoints[:-1, 2]) / keypoints[:-1, 1]'},
     {'name': 'flip pickup comparison', 'file': 'partitura/score.py', 'old': '                if actual_dur < normal_dur:\n                    y -= actual_dur\n', 'new': '                if normal_dur > actual_dur:\n                    y -= actual_dur\n'}]
+
+# changes made by sub-agents that were given only the property text (see /verif/seeded/<id>/): each must stay reported
+SEEDED = [
+    {'name': 'seeded change C02-r2', 'seed': 'C02-r2', 'expect': '|F2c|'},
+    {'name': 'seeded change C02', 'seed': 'C02', 'expect': '|PICKUP-src|'},
+]
+MUTANTS += SEEDED
